@@ -28,8 +28,8 @@ theorem multisigCheck_ne_zero (s : State) (t : TxIn) : multisigCheck s t ≠ som
     · exact multisigCheck_go_ne_zero _ _ _ _
 
 /-- The prologue never answers "rejected with code 0". -/
-theorem prologue_ne_zero (P : Params) (s : State) (b : Nat) (t : TxIn) : prologue P s b t ≠ some 0 := by
-  unfold prologue
+theorem prologueF_ne_zero (P : Params) (s : State) (b : Nat) (t : TxIn) (fl : Nat) : prologueF P s b t fl ≠ some 0 := by
+  unfold prologueF
   repeat' split
   all_goals try simp
   next c heq =>
@@ -38,38 +38,63 @@ theorem prologue_ne_zero (P : Params) (s : State) (b : Nat) (t : TxIn) : prologu
     · exact multisigCheck_ne_zero s t heq
     · cases heq
 
+theorem prologue_ne_zero (P : Params) (s : State) (b : Nat) (t : TxIn) : prologue P s b t ≠ some 0 :=
+  prologueF_ne_zero P s b t 0
+
 /-- What an accepted prologue guarantees: decodable, right chain, valid signature(s), and **nonce = stored + 1**. -/
-theorem prologue_none (P : Params) (s : State) (b : Nat) (t : TxIn) (h : prologue P s b t = none) :
+theorem prologueF_none (P : Params) (s : State) (b : Nat) (t : TxIn) (fl : Nat) (h : prologueF P s b t fl = none) :
     t.dec = true ∧ t.chain = P.chain ∧ t.sigOk = true ∧ nonceOf s t.sender + 1 = t.nonce ∧
-    (t.sigType = 2 → multisigCheck s t = none) := by
-  unfold prologue at h
+    (t.sigType = 2 → multisigCheck s t = none) ∧ fl ≤ t.gasPrice := by
+  unfold prologueF at h
   repeat' split at h
   all_goals first | cases h | skip
   all_goals simp_all
+  all_goals omega
+
+theorem prologue_none (P : Params) (s : State) (b : Nat) (t : TxIn) (h : prologue P s b t = none) :
+    t.dec = true ∧ t.chain = P.chain ∧ t.sigOk = true ∧ nonceOf s t.sender + 1 = t.nonce ∧
+    (t.sigType = 2 → multisigCheck s t = none) := by
+  have := prologueF_none P s b t 0 h
+  exact ⟨this.1, this.2.1, this.2.2.1, this.2.2.2.1, this.2.2.2.2.1⟩
 
 end Minter
 
 namespace Minter
 
-theorem tickerBurn_noNonce (s : State) (t : TxIn) : (tickerBurn s t).any Move.isSetNonce = false := by
-  unfold tickerBurn; split <;> simp [Move.isSetNonce]
+theorem tickerBurn_noNonce (s : State) (t : TxIn) (burn : List Move) (tg : List (String × String))
+    (h : tickerBurn s t = .ok (burn, tg)) : burn.any Move.isSetNonce = false := by
+  unfold tickerBurn at h
+  split at h
+  · split at h
+    · cases h
+    · cases h
+    · split at h
+      · cases h
+      · cases h; simp [Move.isSetNonce]
+  · cases h; rfl
 
 theorem successOutcome_ok (s : State) (t : TxIn) (r out : Outcome) (h : successOutcome s t r = .ok out) :
-    out.code = 0 ∧ r.moves.any Move.isSetNonce = false ∧ out.moves = successMoves s t r ∧
-    (successMoves s t r).all (Move.debitOk t.sender none) = true := by
+    ∃ burn, out.code = 0 ∧ r.moves.any Move.isSetNonce = false ∧ burn.any Move.isSetNonce = false ∧ out.moves = successMoves t r burn ∧
+    (successMoves t r burn).all (Move.debitOk t.sender t.issuer) = true := by
   unfold successOutcome at h
   split at h
   · cases h
-  · next hd =>
+  · next burn btags hb =>
     split at h
     · cases h
-    · next hn =>
-      cases h
-      exact ⟨rfl, by simpa using hn, rfl, by simpa using hd⟩
+    · next hbn =>
+      split at h
+      · cases h
+      · next hd =>
+        split at h
+        · cases h
+        · next hn =>
+          cases h
+          exact ⟨burn, rfl, by simpa using hn, by simpa using hbn, rfl, by simpa using hd⟩
 
 theorem failureOutcome_ok (P : Params) (o : Oracle) (s : State) (t : TxIn) (code : Nat) (out : Outcome)
     (h : failureOutcome P o s t code = .ok out) :
-    out.code ≠ 0 ∧ out.moves.all Move.isFee = true ∧ out.moves.all (Move.debitOk t.sender none) = true := by
+    out.code ≠ 0 ∧ out.moves.all Move.isFee = true ∧ out.moves.all (Move.debitOk t.sender t.issuer) = true := by
   unfold failureOutcome at h
   split at h
   · next f _ =>
@@ -84,22 +109,61 @@ theorem failureOutcome_ok (P : Params) (o : Oracle) (s : State) (t : TxIn) (code
         · next hd => cases h; exact ⟨by simpa using hc, by simpa using hf, by simpa using hd⟩
   · cases h
 
-/-- Either a rejection (non-zero code, fee moves only) or the success shape. -/
-theorem deliverBody_shape (P : Params) (o : Oracle) (s : State) (b : Nat) (t : TxIn) (out : Outcome)
-    (h : deliverBody P o s b t = .ok out) :
-    (out.code ≠ 0 ∧ out.moves.all Move.isFee = true ∧ out.moves.all (Move.debitOk t.sender none) = true) ∨ (∃ r, successOutcome s t r = .ok out) := by
-  unfold deliverBody at h
+theorem checkSwapQuote_code_ne_zero (r0 r1 vi vo : Int) (b : Bool) (c : Nat) (h : checkSwapQuote r0 r1 vi vo b = .ok (.error c)) : c ≠ 0 := by
+  unfold checkSwapQuote at h
+  split at h
+  · split at h
+    · cases h
+    · cases h; decide
+    · split at h
+      · cases h; decide
+      · cases h
+  · split at h
+    · cases h
+    · cases h; decide
+    · next x _ =>
+      by_cases hx : x < (if vo = 0 then 1 else vo)
+      · simp only [hx, if_true] at h; cases h; decide
+      · simp only [hx, if_false] at h; cases h
+
+theorem toBase_code_ne_zero (s : State) (a : Int) (c : Nat) (h : toBase s a = .ok (.error c)) : c ≠ 0 := by
+  unfold toBase at h
+  split at h
+  · cases h
+  · split at h
+    · cases h
+    · split at h
+      · cases h
+      · exact checkSwapQuote_code_ne_zero _ _ _ _ _ _ h
+
+theorem basePrice_code_ne_zero (s : State) (t : TxIn) (c : Nat) (h : basePrice s t = .ok (.error c)) : c ≠ 0 := by
+  unfold basePrice at h
   simp only at h
   split at h
   · cases h
   · split at h
-    · cases h; left; exact ⟨by decide, rfl, rfl⟩
+    · cases h
+    · next c' hb => cases h; exact toBase_code_ne_zero _ _ _ hb
+    · split at h
+      · cases h; decide
+      · cases h
+
+/-- Either a rejection (non-zero code, fee moves only) or the success shape. -/
+theorem deliverBody_shape (P : Params) (o : Oracle) (s : State) (b : Nat) (t : TxIn) (out : Outcome)
+    (h : deliverBody P o s b t = .ok out) :
+    (out.code ≠ 0 ∧ out.moves.all Move.isFee = true ∧ out.moves.all (Move.debitOk t.sender t.issuer) = true) ∨ (∃ r, successOutcome s t r = .ok out) := by
+  unfold deliverBody at h
+  split at h
+  · cases h
+  · next c hb => cases h; left; exact ⟨basePrice_code_ne_zero s t c hb, rfl, rfl⟩
+  · split at h
+    · cases h
     · split at h
       · cases h
-      · next r _ =>
-        split at h
-        · left; exact failureOutcome_ok P o s t r.code out h
-        · right; exact ⟨r, h⟩
+      · left; exact failureOutcome_ok P o s t _ out h
+    · split at h
+      · cases h
+      · next r _ => right; exact ⟨r, h⟩
 
 /-- **C04 (a).** An accepted transaction has exactly the next nonce of its sender and the network's chain id. -/
 theorem C04_accept_in_order (P : Params) (o : Oracle) (s : State) (b : Nat) (t : TxIn) (out : Outcome)
@@ -122,7 +186,8 @@ theorem C03_reject_fee_only (P : Params) (o : Oracle) (s : State) (b : Nat) (t :
   · cases h; rfl
   · rcases deliverBody_shape P o s b t out h with hr | ⟨r, hs⟩
     · exact hr.2.1
-    · exact absurd (successOutcome_ok s t r out hs).1 hc
+    · obtain ⟨_, h0, _⟩ := successOutcome_ok s t r out hs
+      exact absurd h0 hc
 
 end Minter
 
@@ -166,6 +231,44 @@ theorem move_prims_noNonce (m : Move) (h : m.isSetNonce = false) : ∀ p ∈ m.p
     · cases hp
     · simp only [List.mem_cons, List.mem_nil_iff, or_false] at hp; rcases hp with h | h | h <;> subst h <;> rfl
   | burnTicker v => simp only [Move.prims, List.mem_cons, List.mem_nil_iff, or_false] at hp; rcases hp with h | h <;> subst h <;> rfl
+
+  | bancor a sell sellAmt buy buyAmt bip =>
+    simp only [Move.prims, List.mem_append] at hp
+    rcases hp with hp | hp <;> split at hp
+    · rw [List.mem_singleton] at hp; subst hp; rfl
+    · simp only [List.mem_cons, List.mem_nil_iff, or_false] at hp; rcases hp with hq | hq | hq <;> subst hq <;> rfl
+    · rw [List.mem_singleton] at hp; subst hp; rfl
+    · simp only [List.mem_cons, List.mem_nil_iff, or_false] at hp; rcases hp with hq | hq | hq <;> subst hq <;> rfl
+  | delegate a cand coin value wl =>
+    cases wl <;> simp only [Move.prims, List.mem_cons, List.mem_nil_iff, or_false] at hp
+    · rcases hp with h | h <;> subst h <;> rfl
+    · rcases hp with h | h | h <;> subst h <;> rfl
+  | unbond a stakeCand coin value wl f =>
+    cases wl with
+    | none => simp only [Move.prims, List.mem_cons, List.mem_nil_iff, or_false] at hp; rcases hp with h | h <;> subst h <;> rfl
+    | some w =>
+      simp only [Move.prims] at hp
+      split at hp
+      · simp only [List.mem_cons, List.mem_nil_iff, or_false] at hp; rcases hp with h | h | h <;> subst h <;> rfl
+      · split at hp
+        · simp only [List.mem_cons, List.mem_nil_iff, or_false] at hp; rcases hp with h | h | h <;> subst h <;> rfl
+        · simp only [List.mem_cons, List.mem_nil_iff, or_false] at hp; rcases hp with h | h <;> subst h <;> rfl
+  | lock a f => simp only [Move.prims, List.mem_cons, List.mem_nil_iff, or_false] at hp; rcases hp with h | h <;> subst h <;> rfl
+  | declare a cd coin stake => simp only [Move.prims, List.mem_cons, List.mem_nil_iff, or_false] at hp; rcases hp with h | h | h <;> subst h <;> rfl
+  | poolCreate a pl lp =>
+    simp only [Move.prims] at hp; split at hp
+    · cases hp
+    · simp only [List.mem_cons, List.mem_nil_iff, or_false] at hp; rcases hp with h | h | h | h | h | h <;> subst h <;> rfl
+  | poolMint a c0 c1 a0 a1 lp liq =>
+    simp only [Move.prims] at hp; split at hp
+    · cases hp
+    · simp only [List.mem_cons, List.mem_nil_iff, or_false] at hp; rcases hp with h | h | h | h | h <;> subst h <;> rfl
+  | poolBurn a c0 c1 a0 a1 lp liq =>
+    simp only [Move.prims] at hp; split at hp
+    · cases hp
+    · simp only [List.mem_cons, List.mem_nil_iff, or_false] at hp; rcases hp with h | h | h | h | h <;> subst h <;> rfl
+  | orderAdd a o => simp only [Move.prims, List.mem_cons, List.mem_nil_iff, or_false] at hp; rcases hp with h | h <;> subst h <;> rfl
+  | orderRemove a o => simp only [Move.prims, List.mem_cons, List.mem_nil_iff, or_false] at hp; rcases hp with h | h <;> subst h <;> rfl
 
 theorem checked_nonces (s s' : State) (ps : List Prim) (hn : ∀ p ∈ ps, p.isSetNonce = false)
     (h : applyChecked s ps = some s') : s'.nonces = s.nonces := by
@@ -229,11 +332,11 @@ theorem C04_nonce_effect (P : Params) (o : Oracle) (s s' : State) (b : Nat) (t :
     · next c hp => cases h; exact absurd (hc ▸ hp) (prologue_ne_zero P s b t)
     · rcases deliverBody_shape P o s b t out h with hr | ⟨r, hs⟩
       · exact absurd hc hr.1
-      · obtain ⟨_, hnn, hm, _⟩ := successOutcome_ok s t r out hs
-        have hplan : out.plan = planOf (r.moves ++ tickerBurn s t) ++ [Prim.setNonce t.sender t.nonce] := by
+      · obtain ⟨burn, _, hnn, hbn, hm, _⟩ := successOutcome_ok s t r out hs
+        have hplan : out.plan = planOf (r.moves ++ burn) ++ [Prim.setNonce t.sender t.nonce] := by
           simp [Outcome.plan, hm, successMoves, planOf, Move.prims, Prim.isAdmin]
         rw [hplan, applyChecked_append] at ha
-        cases h1 : applyChecked s (planOf (r.moves ++ tickerBurn s t)) with
+        cases h1 : applyChecked s (planOf (r.moves ++ burn)) with
         | none => simp [h1] at ha
         | some s1 =>
           simp only [h1, Option.bind_some, applyChecked] at ha
@@ -242,7 +345,7 @@ theorem C04_nonce_effect (P : Params) (o : Oracle) (s s' : State) (b : Nat) (t :
             have hn1 : s1.nonces = s.nonces := by
               apply checked_nonces s s1 _ _ h1
               apply planOf_noNonce
-              simp [List.any_append, hnn, tickerBurn_noNonce]
+              simp [List.any_append, hnn, hbn]
             constructor
             · rw [nonceOf_setNonce]; omega
             · intro x hx
